@@ -31,6 +31,8 @@ class World(object):
         self.handles = {}    # name -> dict
         self.tabcache = {}
         self.cfg = script.get("cfg", {})
+        self.workbufs = []   # chunks handed to writers by the operation that just finished
+        self.nspell = 0
         self.reused = {}     # (caller, kind) -> long-lived SFile / Recfile object re-open()ed per file
         self.cur = 0         # caller of the operation being executed
         self.nreuse = 0
@@ -60,6 +62,15 @@ class World(object):
         """the file name as the CALLER writes it when handing it to esutil: absolute, or with an environment
         variable or a home-directory tilde that esutil expands itself (sfile and recfile both do)"""
         form = self.cfg.get("pathform", "abs")
+        if form == "mixed":
+            # the same file is spelled differently from call to call: absolute, relative to the current directory
+            # (the run's scratch disk), through an environment variable, through the home directory
+            self.nspell += 1
+            form = ("abs", "rel", "var", "home", "rel2")[(self.nspell * 7 + len(p)) % 5]
+        if form == "rel":
+            return p
+        if form == "rel2":
+            return "./" + p
         if form == "var":
             return "$ESUTIL_SIMDISK/" + p
         if form == "home":
@@ -98,10 +109,14 @@ def _handed(w, op, tab):
     """the chunk as the caller hands it to the writer: 1-d, or (rarely) the same rows as a C-contiguous 2-d array
     (rows in C order) -- esutil writes data.size rows either way"""
     nd = op.get("nd")
+    # what is handed over is the caller's WORK BUFFER (a copy of the model's rows): the caller refills it as soon as
+    # the call has returned, before it does anything else
+    buf = tab.copy()
+    w.workbufs.append(buf)
     if nd and tab.ndim == 1 and tab.shape[0] == nd[0] * nd[1] and nd[0] > 1 and nd[1] > 1:
         w.run.fault("chunk_handed_over_as_2d_array")
-        return tab.reshape(nd[0], nd[1])
-    return tab
+        return buf.reshape(nd[0], nd[1])
+    return buf
 
 
 def _fstate(m):
@@ -279,9 +294,12 @@ def execute(script, run, env):
     w = World(root, run, script)
     mods = {"sfile": sfile, "recfile": recfile, "io": eio}
     saved_env = {k: os.environ.get(k) for k in ("ESUTIL_SIMDISK", "HOME")}
+    saved_cwd = os.getcwd()
     if w.cfg.get("pathform", "abs") != "abs":
         os.environ["ESUTIL_SIMDISK"] = root
         os.environ["HOME"] = root
+        if w.cfg["pathform"] == "mixed":
+            os.chdir(root)
         run.fault("file_names_expanded_by_esutil_" + w.cfg["pathform"])
     ncallers = len(set(op.get("c", 0) for op in script["ops"]))
     prev_c = None
@@ -293,6 +311,10 @@ def execute(script, run, env):
                 run.fault("interleaved_callers")
             prev_c = c
             w.cur = c
+            if w.workbufs:
+                if scribble(w.workbufs):
+                    run.fault("caller_refilled_its_work_buffer_after_a_write")
+                del w.workbufs[:]
             fn = OPS.get(op["k"])
             if fn is None:
                 run.event(c, op["k"], "", "unknown-op")
@@ -314,6 +336,10 @@ def execute(script, run, env):
                 os.environ.pop(k, None)
             else:
                 os.environ[k] = v
+        try:
+            os.chdir(saved_cwd)
+        except OSError:
+            pass
     if run.faults:
         run.nontrivial = True
 
@@ -434,6 +460,28 @@ def op_create(w, op, mods):
                 merged.update(hdr or {})
                 hdr = merged
                 run.fault("header_dict_read_from_an_earlier_file")
+    al = op.get("hdr_align")
+    if al and form == "sfile":
+        # find the pad length that puts the END line where it is wanted: write once with a short pad to a side file,
+        # measure, then the real write uses the adjusted pad (a string without blanks stays on one line)
+        try:
+            probe = dict(hdr or {})
+            probe["zz_pad"] = "x" * 10
+            side = w.path("align_probe.rec")
+            mods["sfile"].write(side, tab[:1], header=probe, **({"delim": delim} if delim else {}))
+            raw = open(side, "rb").read()
+            os.unlink(side)
+            e0 = raw.index(b"\nEND\n") + 1
+            target = al["block"] * al.get("mult", 1) - al.get("back", 0)
+            # the SIZE line has a fixed width, so the header of the real table has the same length as the probe's
+            need = (target - e0) % al["block"]
+            if e0 + need < target:
+                need = target - e0
+            hdr = dict(hdr or {})
+            hdr["zz_pad"] = "x" * (10 + need)
+            run.fault("header_end_aligned_to_a_block_boundary")
+        except Exception:
+            pass
     existed = os.path.exists(w.path(p))
     if existed:
         if old is None:
